@@ -120,7 +120,7 @@ impl UiTokenCollection {
 
     fn check_collision(&self, start_position: usize, end_position: usize) -> bool {
         for item in self.iter() {
-            if (item.start <= start_position && item.end > start_position) || item.start < end_position && item.end >= end_position {
+            if item.start < end_position && start_position < item.end {
                 return false
             }
         }
